@@ -13,7 +13,7 @@ from AegeanTools.regions import Region
 from AegeanTools.source_finder import SourceFinder, find_islands
 from AegeanTools.wcs_helpers import WCSHelper
 from vlib import refs, skyimg
-from vlib.core import Res
+from vlib.core import Res, workdir
 
 PROP = "C11"
 SHARDS = {"quick": 16, "thorough": 16}
@@ -242,7 +242,7 @@ def check_case(c):
     if any(g not in set(kept) for g in gset):
         res.bad("unknown-island", "%s: find_islands(region=) returns a pixel group that is not an island of the image" % what, **tags)
     # ---- (2) components: restricted run = filtered unrestricted run
-    d = tempfile.mkdtemp(prefix="c11_")
+    d = workdir("c11_")
     try:
         path = os.path.join(d, "im.fits")
         skyimg.write_fits(path, img, hdr)
